@@ -44,10 +44,21 @@ func fnID(fn *ssa.Function) string {
 		// an instance of a generic function is named (and specified) as its generic origin
 		return fnID(o)
 	}
+	if fn.Parent() != nil {
+		if v := literalVarName(fn); v != "" {
+			return fnID(fn.Parent()) + "$" + v
+		}
+	}
 	if fn.Pkg != nil {
 		return fn.Pkg.Pkg.Path() + "." + fn.RelString(fn.Pkg.Pkg)
 	}
 	if fn.Parent() != nil {
+		// a function literal assigned to a variable is named after the variable
+		// (Run$completePiece), so that adding or removing another literal does not rename it;
+		// other literals keep go/ssa's ordinal (Run$1)
+		if v := literalVarName(fn); v != "" {
+			return fnID(fn.Parent()) + "$" + v
+		}
 		p := fn
 		for p.Parent() != nil {
 			p = p.Parent()
@@ -57,6 +68,58 @@ func fnID(fn *ssa.Function) string {
 		}
 	}
 	return fn.String()
+}
+
+var litNameCache = map[*ssa.Function]string{}
+
+// literalVarName: the name of the local variable a function literal is assigned
+// to, when exactly one literal of the parent is assigned to a variable of that name.
+func literalVarName(fn *ssa.Function) string {
+	if n, ok := litNameCache[fn]; ok {
+		return n
+	}
+	parent := fn.Parent()
+	names := map[*ssa.Function]string{}
+	count := map[string]int{}
+	for _, b := range parent.Blocks {
+		for _, in := range b.Instrs {
+			mc, ok := in.(*ssa.MakeClosure)
+			if !ok || mc.Referrers() == nil {
+				continue
+			}
+			lit, ok := mc.Fn.(*ssa.Function)
+			if !ok {
+				continue
+			}
+			for _, r := range *mc.Referrers() {
+				if st, ok := r.(*ssa.Store); ok && st.Val == mc {
+					if al, ok := st.Addr.(*ssa.Alloc); ok && al.Comment != "" && isIdent(al.Comment) {
+						if _, dup := names[lit]; !dup {
+							names[lit] = al.Comment
+							count[al.Comment]++
+						}
+					}
+				}
+			}
+		}
+	}
+	for _, lit := range parent.AnonFuncs {
+		n := names[lit]
+		if n != "" && count[n] != 1 {
+			n = ""
+		}
+		litNameCache[lit] = n
+	}
+	return litNameCache[fn]
+}
+
+func isIdent(s string) bool {
+	for i, r := range s {
+		if !(r == '_' || (r >= 'a' && r <= 'z') || (r >= 'A' && r <= 'Z') || (i > 0 && r >= '0' && r <= '9')) {
+			return false
+		}
+	}
+	return s != ""
 }
 
 func isRainFn(fn *ssa.Function) bool {
